@@ -481,6 +481,53 @@ def loadAndPrepareCfgOnly (st : Stages) (loader : List P → Opts N D → Except
     (c : DsCfg N D) (expPaths mcPaths : List P) (livetime : Bool) :=
   loadAndPrepareWith c.cfgFields st loader prep c expPaths mcPaths livetime
 
+/-! ### histories of loads on one shared `Config`
+
+`Dataset.load_data` reads `cfg['datafields']` and builds the merged table as a *new* dictionary
+(`{**cfg['datafields'], **self._datafields}`): the configuration is an input that is not written.
+`loadAndPrepareS` returns the post-state of the configuration-level table next to the result;
+`runHistoryWith step` runs a list of loads on one configuration, threading what each load leaves in
+`cfg['datafields']` (`runHistory`: the code as it is). -/
+
+/-- `load_and_prepare_data` as a state transformer on the configuration-level stage table -/
+def loadAndPrepareS (st : Stages) (loader : List P → Opts N D → Except Err (Arr N D V))
+    (prep : Option (Arr N D V) × Option (Arr N D V) → Except Err (Option (Arr N D V) × Option (Arr N D V)))
+    (c : DsCfg N D) (expPaths mcPaths : List P) (livetime : Bool) :
+    List (N × Nat) × Except Err (Option (Arr N D V) × Option (Arr N D V)) :=
+  (c.cfgFields, loadAndPrepare st loader prep c expPaths mcPaths livetime)
+
+/-- one load of a history: a data set (everything but the shared configuration-level table) -/
+structure LoadReq (N D P : Type) where
+  dsFields : List (N × Nat)
+  expRen : List (N × N)
+  mcRen : List (N × N)
+  keep : List N
+  conv : List (D × D)
+  exc : Option (List N)
+  expPaths : List P
+  mcPaths : List P
+  livetime : Bool
+
+def LoadReq.cfg (r : LoadReq N D P) (cfgTable : List (N × Nat)) : DsCfg N D :=
+  ⟨cfgTable, r.dsFields, r.expRen, r.mcRen, r.keep, r.conv, r.exc⟩
+
+/-- a history of loads on one configuration; `step` = one load as a state transformer -/
+def runHistoryWith
+    (step : DsCfg N D → List P → List P → Bool →
+      List (N × Nat) × Except Err (Option (Arr N D V) × Option (Arr N D V))) :
+    List (N × Nat) → List (LoadReq N D P) →
+      List (Except Err (Option (Arr N D V) × Option (Arr N D V)))
+  | _, [] => []
+  | cfg, r :: rs =>
+    (step (r.cfg cfg) r.expPaths r.mcPaths r.livetime).2 ::
+      runHistoryWith step (step (r.cfg cfg) r.expPaths r.mcPaths r.livetime).1 rs
+
+/-- the code as it is -/
+def runHistory (st : Stages) (loader : List P → Opts N D → Except Err (Arr N D V))
+    (prep : Option (Arr N D V) × Option (Arr N D V) → Except Err (Option (Arr N D V) × Option (Arr N D V)))
+    (cfg : List (N × Nat)) (rs : List (LoadReq N D P)) :=
+  runHistoryWith (loadAndPrepareS st loader prep) cfg rs
+
 /-! data preparation functions used by the driver: derived field / removed field -/
 
 inductive PrepOp (N : Type)
